@@ -110,3 +110,10 @@ Definition entry_nameb (c : str) : bool :=
   forallb (fun x => negb (is_sep x)) c && negb (skip c) && negb (is_dotdot c).
 Fixpoint descend (top : str) (names : list str) : str :=
   match names with [] => top | n :: r => descend (pjoin top n) r end.
+
+(** _resolve_path with the working directory at construction time ([cwd0], consulted by __init__'s abspath) and at
+    call time ([cwd1], consulted by _resolve_path's abspath) kept apart: os.chdir may happen in between. *)
+Definition resolve2 (raise_if : gx) (con : bool) (cwd0 cwd1 root_arg path : str) : res :=
+  let root := abspath cwd0 root_arg in
+  let a := abspath cwd1 (pjoin root path) in
+  if geval {| e_abs := a; e_root := root; e_con := con |} raise_if then Escape else Ok a.
